@@ -21,7 +21,7 @@ def parseOpts (s : String) : Option (List (String × String)) :=
 def step (line : String) : String :=
   match words line with
   | "probes" :: _ =>
-    "probes " ++ joinWith " " (probes.map fun p => s!"{p.1}/{p.2.1}={if p.2.2 then 1 else 0}")
+    "probes stamp=" ++ genStamp ++ " " ++ joinWith " " (probes.map fun p => s!"{p.1}/{p.2.1}={if p.2.2 then 1 else 0}")
   | "reset" :: _ => "ok"
   | "conn" :: _ => "ok"
   | "presub" :: _ => "ok"
